@@ -14,7 +14,7 @@ pub const NAME_POOL: &[&str] = &[
     "R00", "data", "X_", "ldx", "in_", "out1", "trap_", "putss", "z9", "L0", "L1", "L2", "msg",
     "Main", "MAIN", "end_", "brnzpx", "r10", "xg", "b2", "o", "regs", "stack_", "retss", "popp",
     "addd", "jsrrr", "x", "Y", "halt_", "LOOP", "Loop", "_1", "__", "q", "w_w", "hw", "n", "fib",
-    "ptr", "buf", "count", "tmp", "sub1", "sub2", "done", "skip", "next", "table", "R7_SAVE", "r0_", "r3_x",
+    "ptr", "buf", "2", "40", "sub1", "sub2", "done", "007", "255", "1024", "R7_SAVE", "r0_", "r3_x",
 ];
 
 #[derive(Clone, Debug, Serialize, Deserialize)]
